@@ -272,3 +272,312 @@ Proof.
   { unfold zlen, hdr, hdr_indef. rewrite app_length, Hlen_ts. unfold tn. rewrite Hts. cbn [length]. lia. }
   unfold hdr, hdr_indef. rewrite Hts. cbn [mark_constructed app nth]. lia.
 Qed.
+
+(* ------------------------------------------------------------------ *)
+(* 4. one iteration of process_deeper on a serialised node *)
+
+Ltac eqs := repeat match goal with
+                   | |- @eq Z _ _ => lia
+                   | |- @eq nat _ _ => lia
+                   | |- _ => progress f_equal
+                   end.
+
+Lemma read_v_app body rest : read_v (body ++ rest) (zlen body) = (body, rest, true).
+Proof.
+  induction body as [|b body IH].
+  - cbn [app]. destruct rest; reflexivity.
+  - cbn [app read_v]. rewrite zlen_cons. pose proof (zlen_nonneg body).
+    destruct (zlen body + 1 <=? 0) eqn:E; [lia|].
+    replace (zlen body + 1 - 1) with (zlen body) by lia. rewrite IH. reflexivity.
+Qed.
+
+Lemma read_tl_limit0 eoc tb inp off : read_tl 0 eoc tb inp off = RFinished.
+Proof. destruct inp; reflexivity. Qed.
+
+Lemma pd_S f : pd (S f) = pd_body (pd f).
+Proof. reflexivity. Qed.
+
+Lemma emit_app a b r : emit a (emit b r) = emit (a ++ b) r.
+Proof. destruct r; cbn [emit]; rewrite ?app_assoc; reflexivity. Qed.
+
+Lemma pd_tlv_prim self level limit esize eoc fsize pdc tagbuf tag body rest off1 :
+  is_constr tagbuf = false ->
+  eoc && (nth 0 tagbuf 0 =? 0) && (nth 1 tagbuf 0 =? 0) = false ->
+  (limit = -1 \/ zlen tagbuf + zlen body <= limit) ->
+  pd_tlv self level limit esize eoc fsize pdc tagbuf tag (zlen body) (zlen tagbuf) (body ++ rest) off1 =
+  emit [LPrim level (off1 - zlen tagbuf) tag (zlen tagbuf) (zlen body) body]
+       (pd_next self false level (sub_limit limit (zlen tagbuf + zlen body)) (esize + (zlen tagbuf + zlen body)) eoc
+                (fsize + (zlen tagbuf + zlen body)) pdc rest (off1 + zlen body)).
+Proof.
+  intros Hc He Hlim. unfold pd_tlv. rewrite Hc, He.
+  pose proof (zlen_nonneg body) as Hb. pose proof (zlen_nonneg tagbuf) as Htb.
+  unfold sub_limit.
+  destruct (limit =? -1) eqn:E.
+  - cbn [negb andb]. change (-1 =? -1) with true. cbv iota.
+    destruct (zlen body <? 0) eqn:E2; [lia|].
+    rewrite read_v_app. f_equal. eqs.
+  - cbn [negb andb].
+    destruct (limit - zlen tagbuf <? 0) eqn:E1; [lia|].
+    destruct (limit - zlen tagbuf <? zlen body) eqn:E2; [lia|].
+    destruct (zlen body <? 0) eqn:E3; [lia|].
+    rewrite read_v_app.
+    destruct (limit - zlen tagbuf =? -1) eqn:E4; [lia|].
+    f_equal. eqs.
+Qed.
+
+Lemma pd_tlv_constr self level limit esize eoc fsize pdc tagbuf tag len inp1 off1 o c dec inp2 off2 :
+  is_constr tagbuf = true -> (nth 0 tagbuf 0 =? 0) = false ->
+  (limit = -1 \/ (zlen tagbuf <= limit /\ len <= limit - zlen tagbuf /\ 0 <= dec <= limit - zlen tagbuf)) ->
+  self (S level) (if len =? -1 then sub_limit limit (zlen tagbuf) else len) (zlen tagbuf) (len =? -1) 0 PD_FINISHED inp1 off1
+    = PDone o c dec inp2 off2 ->
+  pd_tlv self level limit esize eoc fsize pdc tagbuf tag len (zlen tagbuf) inp1 off1 =
+  emit (if len =? -1 then LOpen level (off1 - zlen tagbuf) tag (zlen tagbuf) len :: o
+        else LOpen level (off1 - zlen tagbuf) tag (zlen tagbuf) len :: o ++ [LClose level off2 tag (zlen tagbuf + dec)])
+       (pd_next self (len =? -1) level (sub_limit limit (zlen tagbuf + dec)) (esize + zlen tagbuf + dec) eoc
+                (fsize + zlen tagbuf + dec) c inp2 off2).
+Proof.
+  intros Hc H0 Hlim Hself. unfold pd_tlv. rewrite Hc, H0, andb_false_r. cbn [andb].
+  pose proof (zlen_nonneg tagbuf) as Htb.
+  rewrite Hself. unfold sub_limit.
+  destruct (limit =? -1) eqn:E.
+  - cbn [negb andb]. change (-1 =? -1) with true. cbn [negb andb]. reflexivity.
+  - cbn [negb andb]. destruct Hlim as [Hlim|(L1 & L2 & L3)]; [lia|].
+    destruct (limit - zlen tagbuf <? 0) eqn:E1; [lia|].
+    destruct (limit - zlen tagbuf <? len) eqn:E2; [lia|].
+    destruct (limit - zlen tagbuf =? -1) eqn:E4; [lia|]. cbn [negb andb].
+    destruct (limit - zlen tagbuf <? dec) eqn:E5; [lia|].
+    f_equal. eqs.
+Qed.
+
+Lemma pd_eoc f lv limit esize fsize pdc rest off :
+  (limit = -1 \/ 2 <= limit) ->
+  pd (S f) (S lv) limit esize true fsize pdc (0 :: 0 :: rest) off =
+  PDone [LCloseI lv off (esize + 2)] PD_FINISHED (fsize + 2) rest (off + 2).
+Proof.
+  intros Hlim. rewrite pd_S. unfold pd_body.
+  change (0 :: 0 :: rest) with ([0; 0] ++ rest).
+  rewrite (read_tl_hdr limit true [0; 0] 0 0 1 1 rest off); try reflexivity.
+  2:{ unfold zlen; cbn; lia. }
+  2:{ unfold zlen; cbn [length]. lia. }
+  unfold pd_tlv. cbn [nth is_constr andb]. change (0 =? 0) with true. cbn [andb].
+  unfold sub_limit, zlen. cbn [length Nat.pred]. change (Z.of_nat 1 + Z.of_nat 1) with 2. change (Z.of_nat 2) with 2.
+  destruct (limit =? -1) eqn:E.
+  - cbn [negb andb]. f_equal. eqs.
+  - cbn [negb andb]. destruct (limit - 2 <? 0) eqn:E1; [lia|]. f_equal. eqs.
+Qed.
+
+Definition is_indef (t : ber_tree) : bool := match t with Cons _ false _ => true | _ => false end.
+Definition node_code (t : ber_tree) (pdc : pdcode) : pdcode := match t with Prim _ _ => pdc | Cons _ _ _ => PD_FINISHED end.
+
+(* one iteration of the loop on ser t, in any loop context that leaves room for it *)
+Definition node_ok (t : ber_tree) : Prop :=
+  forall f level limit esize eoc fsize pdc rest off,
+    wf_tree t eoc ->
+    (length (ser t ++ rest) <= f)%nat ->
+    (limit = -1 \/ tsize t <= limit) ->
+    pd (S f) level limit esize eoc fsize pdc (ser t ++ rest) off =
+    emit (exp_lines t level off)
+         (pd_next (pd f) (is_indef t) level (sub_limit limit (tsize t)) (esize + tsize t) eoc (fsize + tsize t)
+                  (node_code t pdc) rest (off + tsize t)).
+
+Lemma allP_Forall f ts : allP f ts <-> Forall f ts.
+Proof.
+  induction ts as [|t ts IH]; cbn [allP]; split; intros H; auto.
+  - destruct H; constructor; tauto.
+  - inversion H; subst; tauto.
+Qed.
+
+Lemma ser_nonempty t b : wf_tree t b -> (2 <= length (ser t))%nat.
+Proof.
+  destruct t as [tag body|tag [|] ch]; cbn [wf_tree ser]; intros H.
+  - destruct H as (Ht & _ & Hl & _). destruct (tag_serialize_shape tag Ht) as (x & tl & -> & _).
+    destruct (len_serialize_shape (zlen body) ltac:(pose proof (zlen_nonneg body); lia)) as (y & tl' & -> & _).
+    cbn [app length]. rewrite app_length. cbn [length]. lia.
+  - destruct H as (Ht & _ & Hl). destruct (tag_serialize_shape tag Ht) as (x & tl & -> & _).
+    destruct (len_serialize_shape (zlen (flat_map ser ch)) ltac:(pose proof (zlen_nonneg (flat_map ser ch)); lia)) as (y & tl' & -> & _).
+    cbn [mark_constructed app length]. rewrite app_length. cbn [length]. lia.
+  - destruct H as (Ht & _). destruct (tag_serialize_shape tag Ht) as (x & tl & -> & _).
+    cbn [mark_constructed app length]. rewrite app_length. cbn [length]. lia.
+Qed.
+
+Lemma fsize_of_cons t ts : fsize_of (t :: ts) = tsize t + fsize_of ts.
+Proof. unfold fsize_of, tsize, ser_forest. cbn [flat_map]. apply zlen_app. Qed.
+
+Lemma fsize_of_nonneg ts : 0 <= fsize_of ts.
+Proof. apply zlen_nonneg. Qed.
+
+(* the member loop of a definite-length parent: limit = exactly the members *)
+Lemma forest_def ts : Forall node_ok ts ->
+  forall f lv esize fsize pdc rest off,
+    allP (fun c => wf_tree c false) ts ->
+    (length (ser_forest ts ++ rest) <= f)%nat ->
+    pd (S f) (S lv) (fsize_of ts) esize false fsize pdc (ser_forest ts ++ rest) off =
+    PDone (exp_forest ts (S lv) off) PD_FINISHED (fsize + fsize_of ts) rest (off + fsize_of ts).
+Proof.
+  induction 1 as [|t ts Ht Hts IH]; intros f lv esize fsize pdc rest off Hwf Hf.
+  - rewrite pd_S. unfold pd_body. change (fsize_of []) with 0. rewrite read_tl_limit0. cbn [ser_forest flat_map app].
+    f_equal; lia.
+  - destruct Hwf as [Hwt Hwts].
+    pose proof (ser_nonempty _ _ Hwt) as Hne.
+    unfold ser_forest in *. cbn [flat_map] in *. rewrite <- app_assoc in *.
+    pose proof (fsize_of_nonneg ts) as Hnn. pose proof (zlen_nonneg (ser t)) as Hnt. fold (tsize t) in Hnt.
+    rewrite fsize_of_cons.
+    rewrite (Ht f (S lv) (tsize t + fsize_of ts) esize false fsize pdc _ off Hwt Hf ltac:(lia)).
+    rewrite app_length in Hf. destruct f as [|f']; [lia|].
+    assert (Hnext : forall c, pd_next (pd (S f')) (is_indef t) (S lv) (sub_limit (tsize t + fsize_of ts) (tsize t)) (esize + tsize t) false
+                     (fsize + tsize t) c (flat_map ser ts ++ rest) (off + tsize t)
+              = pd (S f') (S lv) (fsize_of ts) (esize + tsize t) false (fsize + tsize t) c (flat_map ser ts ++ rest) (off + tsize t)).
+    { intros c. unfold pd_next, sub_limit.
+      destruct (tsize t + fsize_of ts =? -1) eqn:E; [lia|].
+      replace (tsize t + fsize_of ts - tsize t) with (fsize_of ts) by lia.
+      destruct (is_indef t); [|reflexivity].
+      destruct c; [|reflexivity].
+      destruct (fsize_of ts <? 0) eqn:E2; [lia|]. reflexivity. }
+    rewrite Hnext.
+    rewrite (IH f' lv (esize + tsize t) (fsize + tsize t) (node_code t pdc) rest (off + tsize t) Hwts ltac:(lia)).
+    cbn [emit]. unfold exp_forest. cbn [exp_all]. f_equal; lia.
+Qed.
+
+(* the member loop of an indefinite-length parent, ended by 00 00 *)
+Lemma forest_indef ts : Forall node_ok ts ->
+  forall f lv limit esize fsize pdc rest off,
+    allP (fun c => wf_tree c true) ts ->
+    (length (ser_forest ts ++ 0%Z :: 0%Z :: rest) <= f)%nat ->
+    (limit = -1 \/ fsize_of ts + 2 <= limit) ->
+    pd (S f) (S lv) limit esize true fsize pdc (ser_forest ts ++ 0 :: 0 :: rest) off =
+    PDone (exp_forest ts (S lv) off ++ [LCloseI lv (off + fsize_of ts) (esize + fsize_of ts + 2)]) PD_FINISHED
+          (fsize + fsize_of ts + 2) rest (off + fsize_of ts + 2).
+Proof.
+  induction 1 as [|t ts Ht Hts IH]; intros f lv limit esize fsize pdc rest off Hwf Hf Hlim.
+  - cbn [ser_forest flat_map app]. change (fsize_of []) with 0 in *.
+    rewrite pd_eoc by lia. cbn [exp_forest exp_all app]. f_equal; eqs.
+  - destruct Hwf as [Hwt Hwts].
+    pose proof (ser_nonempty _ _ Hwt) as Hne.
+    unfold ser_forest in *. cbn [flat_map] in *. rewrite <- app_assoc in *.
+    pose proof (fsize_of_nonneg ts) as Hnn. pose proof (zlen_nonneg (ser t)) as Hnt. fold (tsize t) in Hnt.
+    rewrite fsize_of_cons in *.
+    rewrite (Ht f (S lv) limit esize true fsize pdc _ off Hwt Hf ltac:(lia)).
+    rewrite app_length in Hf. destruct f as [|f']; [lia|].
+    assert (Hnext : forall c, pd_next (pd (S f')) (is_indef t) (S lv) (sub_limit limit (tsize t)) (esize + tsize t) true
+                     (fsize + tsize t) c (flat_map ser ts ++ 0 :: 0 :: rest) (off + tsize t)
+              = pd (S f') (S lv) (sub_limit limit (tsize t)) (esize + tsize t) true (fsize + tsize t) c
+                   (flat_map ser ts ++ 0 :: 0 :: rest) (off + tsize t)).
+    { intros c. unfold pd_next. destruct (is_indef t); [|reflexivity].
+      destruct c; [|reflexivity]. rewrite andb_false_r. reflexivity. }
+    rewrite Hnext.
+    rewrite (IH f' lv (sub_limit limit (tsize t)) (esize + tsize t) (fsize + tsize t) (node_code t pdc) rest (off + tsize t) Hwts ltac:(lia)).
+    2:{ unfold sub_limit. destruct (limit =? -1) eqn:E; lia. }
+    cbn [emit]. unfold exp_forest. cbn [exp_all]. rewrite app_assoc. f_equal; eqs.
+Qed.
+
+(* nested induction principle *)
+Lemma ber_tree_ind' (P : ber_tree -> Prop) :
+  (forall tag body, P (Prim tag body)) ->
+  (forall tag d ch, Forall P ch -> P (Cons tag d ch)) ->
+  forall t, P t.
+Proof.
+  intros HP HC.
+  refine (fix IH (t : ber_tree) : P t :=
+            match t with
+            | Prim tag body => HP tag body
+            | Cons tag d ch =>
+                HC tag d ch ((fix go (l : list ber_tree) : Forall P l :=
+                                match l with
+                                | [] => Forall_nil P
+                                | c :: tl => Forall_cons c (IH c) (go tl)
+                                end) ch)
+            end).
+Qed.
+
+Lemma sub_limit_m1 d : sub_limit (-1) d = -1.
+Proof. reflexivity. Qed.
+
+Lemma node_ok_all t : node_ok t.
+Proof.
+  induction t as [tag body|tag d ch IH] using ber_tree_ind'; unfold node_ok;
+    intros f level limit esize eoc fsize pdc rest off Hwf Hf Hlim.
+  - (* primitive *)
+    cbn [wf_tree] in Hwf. destruct Hwf as (Htag & Hbody & Hlen & Heoc).
+    pose proof (zlen_nonneg body) as Hb0.
+    destruct (hdr_of_facts false tag (zlen body) Htag ltac:(lia)) as (F1 & F2 & F3 & F4 & F5 & F6 & _).
+    assert (Hser : ser (Prim tag body) = hdr_of false tag (zlen body) ++ body).
+    { cbn [ser]. unfold hdr_of. rewrite <- app_assoc. reflexivity. }
+    assert (Hsize : tsize (Prim tag body) = zlen (hdr_of false tag (zlen body)) + zlen body).
+    { unfold tsize. rewrite Hser. apply zlen_app. }
+    assert (Hhl : hdr_len (Prim tag body) = zlen (hdr_of false tag (zlen body))).
+    { cbn [hdr_len]. unfold hdr_of. rewrite zlen_app. reflexivity. }
+    rewrite Hser, <- app_assoc. rewrite pd_S. unfold pd_body.
+    rewrite <- F2 in F3 at 1.
+    rewrite (read_tl_hdr limit eoc _ _ _ _ _ (body ++ rest) off F1 F3 F4 F5) by lia.
+    replace (Z.of_nat (length (tag_serialize tag)) + Z.of_nat (length (len_serialize (zlen body))))
+      with (zlen (hdr_of false tag (zlen body))) by (unfold zlen; rewrite F4; lia).
+    rewrite pd_tlv_prim; [| exact F2 | | lia].
+    2:{ destruct eoc; [|reflexivity]. cbn [andb]. apply F6; [reflexivity|].
+        intros [-> Hz]. apply Heoc; [reflexivity|]. split; [reflexivity|].
+        destruct body; [reflexivity|]. rewrite zlen_cons in Hz. pose proof (zlen_nonneg body). lia. }
+    cbn [exp_lines is_indef node_code]. rewrite Hhl, Hsize.
+    f_equal; eqs.
+  - (* constructed *)
+    cbn [wf_tree] in Hwf. destruct Hwf as (Htag & Hch & Hlen).
+    destruct d.
+    + (* definite *)
+      specialize (Hlen eq_refl).
+      set (content := flat_map ser ch) in *.
+      pose proof (zlen_nonneg content) as Hc0.
+      destruct (hdr_of_facts true tag (zlen content) Htag ltac:(lia)) as (F1 & F2 & F3 & F4 & F5 & _ & F7).
+      set (hdr := hdr_of true tag (zlen content)) in *.
+      assert (Hser : ser (Cons tag true ch) = hdr ++ content).
+      { cbn [ser]. unfold hdr, hdr_of. rewrite <- app_assoc. reflexivity. }
+      assert (Hsize : tsize (Cons tag true ch) = zlen hdr + zlen content).
+      { unfold tsize. rewrite Hser. apply zlen_app. }
+      assert (Hhl : hdr_len (Cons tag true ch) = zlen hdr).
+      { cbn [hdr_len]. unfold hdr, hdr_of. rewrite zlen_app. unfold zlen. cbn [mark_constructed].
+        destruct (tag_serialize tag); reflexivity. }
+      assert (Hfs : fsize_of ch = zlen content) by reflexivity.
+      rewrite Hser, <- app_assoc in *. rewrite pd_S. unfold pd_body.
+      rewrite <- F2 in F3 at 1.
+      rewrite (read_tl_hdr limit eoc _ _ _ _ _ (content ++ rest) off F1 F3 F4 F5) by lia.
+      replace (Z.of_nat (length (tag_serialize tag)) + Z.of_nat (length (len_serialize (zlen content))))
+        with (zlen hdr) by (unfold zlen; rewrite F4; lia).
+      assert (Hhdr2 : 2 <= zlen hdr).
+      { unfold zlen. rewrite F4. pose proof (fetch_tag_consumed _ _ _ F1).
+        destruct (len_serialize_shape (zlen content) ltac:(lia)) as (y & tl' & -> & _). cbn [length]. lia. }
+      rewrite app_length in Hf. destruct f as [|f']; [unfold zlen in Hhdr2; lia|].
+      assert (Hne : (zlen content =? -1) = false) by lia.
+      rewrite (pd_tlv_constr (pd (S f')) level limit esize eoc fsize pdc hdr tag (zlen content) (content ++ rest) (off + zlen hdr)
+                 (exp_forest ch (S level) (off + zlen hdr)) PD_FINISHED (0 + fsize_of ch) rest (off + zlen hdr + fsize_of ch) F2 (F7 eq_refl)).
+      * rewrite Hne. cbn [exp_lines is_indef node_code]. rewrite Hhl, Hsize, Hfs.
+        unfold exp_forest. f_equal; eqs.
+      * rewrite Hfs. lia.
+      * rewrite Hne, <- Hfs. apply forest_def; [exact IH | exact Hch | unfold zlen in Hhdr2; unfold ser_forest; fold content; lia].
+    + (* indefinite *)
+      set (content := flat_map ser ch) in *.
+      pose proof (zlen_nonneg content) as Hc0.
+      destruct (hdr_indef_facts tag Htag) as (F1 & F2 & F3 & F4 & F5 & F7).
+      set (hdr := hdr_indef tag) in *.
+      assert (Hser : ser (Cons tag false ch) = hdr ++ content ++ [0; 0]).
+      { cbn [ser]. unfold hdr, hdr_indef. rewrite <- app_assoc. reflexivity. }
+      assert (Hsize : tsize (Cons tag false ch) = zlen hdr + zlen content + 2).
+      { unfold tsize. rewrite Hser, !zlen_app. unfold zlen at 3. cbn [length]. lia. }
+      assert (Hhl : hdr_len (Cons tag false ch) = zlen hdr).
+      { cbn [hdr_len]. unfold hdr, hdr_indef. rewrite zlen_app. unfold zlen. cbn [mark_constructed length].
+        destruct (tag_serialize tag); reflexivity. }
+      assert (Hfs : fsize_of ch = zlen content) by reflexivity.
+      rewrite Hser in *. rewrite <- !app_assoc in *. rewrite pd_S. unfold pd_body.
+      rewrite <- F2 in F3 at 1.
+      rewrite (read_tl_hdr limit eoc _ _ _ _ _ (content ++ [0; 0] ++ rest) off F1 F3 F4 F5) by lia.
+      replace (Z.of_nat (length (tag_serialize tag)) + Z.of_nat 1)
+        with (zlen hdr) by (unfold zlen; rewrite F4; lia).
+      assert (Hhdr2 : 2 <= zlen hdr).
+      { unfold zlen. rewrite F4. pose proof (fetch_tag_consumed _ _ _ F1). lia. }
+      rewrite app_length in Hf. destruct f as [|f']; [unfold zlen in Hhdr2; lia|].
+      rewrite (pd_tlv_constr (pd (S f')) level limit esize eoc fsize pdc hdr tag (-1) (content ++ [0; 0] ++ rest) (off + zlen hdr)
+                 (exp_forest ch (S level) (off + zlen hdr) ++ [LCloseI level (off + zlen hdr + fsize_of ch) (zlen hdr + fsize_of ch + 2)])
+                 PD_FINISHED (0 + fsize_of ch + 2) rest (off + zlen hdr + fsize_of ch + 2) F2 F7).
+      * change (-1 =? -1) with true. cbn [exp_lines is_indef node_code]. rewrite Hhl, Hsize, Hfs.
+        unfold exp_forest. cbn [app]. f_equal; eqs.
+      * rewrite Hfs. lia.
+      * change (-1 =? -1) with true. cbv iota. cbn [app].
+        apply forest_indef; [exact IH | exact Hch | unfold zlen in Hhdr2; cbn [app] in Hf; unfold ser_forest; fold content; lia |].
+        unfold sub_limit. destruct (limit =? -1) eqn:E; lia.
+Qed.
